@@ -132,3 +132,44 @@ def stats(recs):
     return {"encoder_runs_compared": len(e),
             "encoder_model_clauses_total": sum(r["enc"].get("n_db", 0) for r in e if "n_db" in r["enc"]),
             "encoder_model_calls_total": sum(r["enc"].get("n_calls", 0) for r in e if "n_calls" in r["enc"])}
+
+
+def annotate_twice(recs):
+    """Records of `solve_cases --twice`: adds r['enc2'] for the second solve on the same solver (model started
+    from the cache the model's first solve left)."""
+    lines = []
+    for i, r in enumerate(recs):
+        o2, p2 = r.get("obs2"), r.get("p2")
+        d1 = r["obs"].get("dump")
+        if not o2 or not p2 or d1 is None or o2.get("dump") is None:
+            continue
+        k2 = ss.outcome_kind(o2["outcome"])
+        if k2 not in ("sat", "unsat") or ss.outcome_kind(r["obs"]["outcome"]) not in ("sat", "unsat"):
+            continue
+        d2 = o2["dump"]
+        db = [len(d2["clauses"])]
+        for c in d2["clauses"]:
+            db += vlib.tok_clause(c)
+        tr = [len(d2["trail"])]
+        for x in d2["trail"]:
+            tr += vlib.tok_var(x[0]) + [1 if x[1] else 0]
+        lines.append(f"enc2 {i} " + vlib.toks(vlib.tok_universe(r["case"]["u"]), vlib.tok_problem(r["case"]["p"]), tok_sevs(d1["events"]),
+                                               vlib.tok_problem(p2), tok_sevs(d2["events"]), db, tok_calls(o2["calls"]), tr,
+                                               [1 if k2 == "sat" else 0]))
+    out = vlib.oracle(lines)
+    for i, v in out.items():
+        r = recs[int(i)]
+        if v.startswith("error"):
+            r["enc2"] = {"error": v}
+            continue
+        t = v.split()
+        r["enc2"] = {"db": t[0] == "1", "calls": t[1] == "1", "done": t[2] == "1", "fifo": t[3] == "1", "req_true": t[4] == "1",
+                     "trail": t[5] == "1", "final": t[6] == "1", "no_repeat": t[7] == "1", "n_db": int(t[8]), "n_calls": int(t[9])}
+    return recs
+
+
+def ok2(r):
+    e = r.get("enc2")
+    if e is None:
+        return True
+    return "error" not in e and all(e.get(f) for f in ("db", "calls", "done", "fifo", "req_true", "trail", "final", "no_repeat"))
